@@ -107,21 +107,18 @@ Theorem C04_continue_nonloop_refuted : exists p, accepts_m p = true /\ accepts_s
 Proof. exists p_continue_nonloop. vm_compute. auto. Qed.
 Print Assumptions C04_continue_nonloop_refuted.
 
-(* the `in` operator in the first clause of a for statement: otto never rejects what the NoIn
-   productions allow, decides them exactly when no relational operator occurs ... *)
+(* the `in` operator in the first clause of a for statement (operators outside brackets and
+   outside the middle of ?:, see Model.noin_m): otto decides the ES5 NoIn rule exactly, for every
+   operator sequence (the right operand of < <= > >= instanceof used to admit `in`; repaired by
+   24f7b9d, formerly C04_noin_relational_refuted) *)
+Theorem C04_noin_rule : forall ops, noin_m false ops = noin_s ops.
+Proof. exact noin_agree. Qed.
+Print Assumptions C04_noin_rule.
+
+(* and where `in` is allowed (allowIn set: everywhere else) nothing is rejected on its account *)
 Theorem C04_noin_no_false_reject : forall ops r, noin_s ops = true -> noin_m r ops = true.
 Proof. exact noin_complete_r. Qed.
 Print Assumptions C04_noin_no_false_reject.
-
-Theorem C04_noin_rule : forall ops, existsb (Z.eqb 1) ops = false -> noin_m false ops = noin_s ops.
-Proof. exact noin_agree_norel. Qed.
-Print Assumptions C04_noin_rule.
-
-(* ... and accepts for (x = a < b in c; ;) : the right operand of < <= > >= instanceof is parsed
-   with `in` allowed (ES5 11.8: RelationalExpressionNoIn has no in alternative) *)
-Theorem C04_noin_relational_refuted : exists ops, noin_m false ops = true /\ noin_s ops = false.
-Proof. exists [3; 1; 2]. vm_compute. auto. Qed.
-Print Assumptions C04_noin_relational_refuted.
 
 (* nextStatement: one call consumes a token, or is at EOF, or leaves the input alone and
    strictly decreases a measure bounded by 11 ... *)
@@ -170,5 +167,5 @@ Example C04_resync_hyp_met :
   toks_of (iter_ns 11 ([(5, true); (9, false)], 0, 0)) = [(5, true); (9, false)].
 Proof. vm_compute. auto. Qed.
 Example C04_noin_hyp_met :
-  existsb (Z.eqb 1) [3; 0; 2; 3] = false /\ noin_s [3; 0; 2; 3] = false /\ noin_s [3; 1; 0; 3] = true.
+  noin_m false [3; 1; 2] = false /\ noin_s [3; 0; 2; 3] = false /\ noin_s [3; 1; 0; 3] = true.
 Proof. vm_compute. auto. Qed.
